@@ -486,7 +486,9 @@ pub fn msm_best<C: CurveAffine>(coeffs: &[C::Scalar], bases: &[C]) -> C::Curve {
         for (base_idx, coeff) in coeffs.iter().enumerate() {
             let buck_idx = get_booth_index(w, c, coeff.as_ref());
 
-            if buck_idx != 0 {
+            // The identity contributes nothing to the sum; the affine schedule
+            // (`Affine`, `batch_add`) assumes that bases are never the identity.
+            if buck_idx != 0 && !bool::from(bases[base_idx].is_identity()) {
                 // parse bucket index
                 let sign = buck_idx.is_positive();
                 let buck_idx = buck_idx.unsigned_abs() as usize - 1;
